@@ -275,7 +275,7 @@ class ForwardScheduler(IScheduler):
                     children_starts = [t.start for t in _task.children if t.start is not None]
                     if len(children_starts) == 0:
                         children_starts = [datetime(1970, 1, 1)]
-                    _task.start = max(min(children_starts), min_date)
+                    _task.start = min(children_starts)
 
             if _task.estimate is None:
                 if is_leaf:
